@@ -120,8 +120,8 @@ def pw_violate(chk, mode, v, out, adm, tr=None):
 def check_passwd(chk, bindir, tier, rng):
     quick = tier == "quick"
     confs = [dict(sel=range(1, 14), maxlines=2, uids=[0, 5, 9], bufs=[16, 40], pre=["zero", "decoy"])] if quick else [
-        dict(sel=range(1, 14), maxlines=2, uids=[0, 1, 2, 5, 7, 9, 59], bufs=[0, 1, 8, 16, 24, 40, 64, 100], pre=["zero", "nl", "decoy"]),
-        dict(sel=[1, 3, 4, 7, 8, 10, 13], maxlines=3, uids=[0, 1, 5, 9], bufs=[16, 24, 40, 64], pre=["zero", "decoy"])]
+        dict(sel=range(1, 14), maxlines=2, uids=[0, 1, 5, 9, 59], bufs=[0, 1, 8, 16, 24, 40, 64], pre=["zero", "nl", "decoy"]),
+        dict(sel=[1, 3, 4, 7, 8, 13], maxlines=3, uids=[0, 5, 9], bufs=[16, 24, 64], pre=["zero", "decoy"])]
     n_vec = 0
     drift = 0
     model_bad = 0
@@ -171,7 +171,7 @@ def check_passwd(chk, bindir, tier, rng):
         core.log("passwd config %d: %d vectors run and compared (%.0fs)" % (ci, len(vecs), __import__("time").time() - chk.t0))
     # random realistic / long files, judged by TLC
     recs, metas = [], []
-    n_files = 12 if quick else 80
+    n_files = 12 if quick else 40
     for _ in range(n_files):
         nlines = rng.choice([1, 3, 12, 40])
         uids = rng.sample(range(0, 3000), nlines)
@@ -192,8 +192,8 @@ def check_passwd(chk, bindir, tier, rng):
         elif m == 3:
             lines.insert(rng.randrange(len(lines) + 1), b"longline:x:77:77:" + b"g" * 300 + b":/:/s")
         F = b"\n".join(lines) + (b"" if rng.random() < 0.25 else b"\n")
-        for uid in [uids[0], uids[-1], rng.choice(uids), 3001, 4294967295, 77]:
-            for B in ([64, 1024] if quick else [32, 64, 200, 1024, 4096]):
+        for uid in ([uids[0], uids[-1], 3001, 4294967295] if quick else [uids[0], uids[-1], rng.choice(uids), 3001, 4294967295]):
+            for B in ([64, 1024] if quick else [32, 64, 200, 1024]):
                 for pre in ("zero", "decoy"):
                     metas.append({"F": list(F), "uid": uid, "B": B, "pre": pre})
     # the random files go through the same TLC machine + definition (PasswdGen, Mode = "file")
